@@ -247,6 +247,83 @@ func runC11(c *harness.Ctx) {
 			R.Eval(s.U.N.Seq())
 		}
 	}
+	// directed: role lists with DUPLICATES and empty / unknown role names in every arrangement (all of
+	// them reachable through ESDTSetRole calls and hand-over arrivals, whatever discipline the system
+	// contract keeps), then every operation that reads or rewrites the list
+	if mine(c, 7) {
+		C, Q, B := []byte(RoleCreate), []byte(RoleAddQty), []byte(RoleNFTBurn)
+		lists := [][][]byte{{C, C}, {C, Q, C}, {Q, C, C}, {C, C, Q}, {C, C, C}, {Q, Q}, {C, Q, C, Q}, {{}, C, {}}, {[]byte("x"), C, []byte("x"), C}, {B, C, B, Q, B}}
+		for li, list := range lists {
+			for v := 0; v < 6; v++ {
+				s := NewScn(c.Rand("c11r").Fork(uint64(li*10+v)), R, ScnOpts{Shards: 2, Enabled: []string{"C11"}})
+				who := s.Same
+				// one role per call, so that the stored order is exactly the order of the list; the
+				// first Create may also arrive by a hand-over
+				for k, role := range list {
+					if k == 0 && bytes.Equal(role, C) && v%2 == 1 {
+						onLeg(s.U, s.M, s.U.HandOver(s.A, who, s.SFT))
+						for _, dl := range drain(s.U.N) {
+							onLeg(s.U, s.M, dl)
+						}
+						continue
+					}
+					onLeg(s.U, s.M, s.U.N.Exec(node.Call{Func: FSetRole, Caller: gen.SysSC, Recipient: who, Args: [][]byte{s.SFT, role}}))
+				}
+				var l *node.Leg
+				switch v {
+				case 0, 1:
+					l = s.U.N.Exec(node.Call{Func: FUnSetRole, Caller: gen.SysSC, Recipient: who, Args: [][]byte{s.SFT, C}})
+				case 2:
+					l = s.U.N.Exec(node.Call{Func: FUnSetRole, Caller: gen.SysSC, Recipient: who, Args: [][]byte{s.SFT, Q, C, B, C}})
+				case 3:
+					l = s.U.HandOver(who, s.Other, s.SFT)
+				case 4:
+					l = s.U.HandOver(who, s.A, s.SFT)
+				default:
+					l = s.U.N.Exec(gen.SelfCall(FNFTCreate, who, gen.BigGas, s.SFT, gen.Big(2), []byte("n"), gen.Big(1), []byte("h"), []byte("a"), []byte("u")))
+				}
+				onLeg(s.U, s.M, l)
+				for _, dl := range drain(s.U.N) {
+					onLeg(s.U, s.M, dl)
+				}
+				onLeg(s.U, s.M, s.U.N.Exec(node.Call{Func: FUnSetRole, Caller: gen.SysSC, Recipient: who, Args: [][]byte{s.SFT, C, C, Q}}))
+				R.Cover("C11/directed-duplicate-role-cases")
+				R.Eval(s.U.N.Seq())
+			}
+		}
+	}
+	// directed: a FUNGIBLE token whose identifier is another token's identifier followed by a nonce
+	// byte, sent to an account that holds that NFT (one storage key for both), by every transfer form
+	if mine(c, 6) {
+		for v := 0; v < 12; v++ {
+			S := uint32(1 + v%2)
+			s := NewScn(c.Rand("c11f").Fork(uint64(v)), R, ScnOpts{Shards: S, Enabled: []string{"C11"}})
+			x := append(append([]byte{}, s.SFT...), 1) // fungible id = SFT id || 0x01; A holds (SFT, nonce 1)
+			from := s.Same
+			if v%2 == 1 {
+				from = s.Other
+			}
+			s.U.Issue(from, x, big.NewInt(100))
+			var call node.Call
+			switch (v / 2) % 3 {
+			case 0:
+				call = gen.MultiCall(from, s.A, []gen.Item{{ID: x, Nonce: 0, Qty: big.NewInt(1)}}, gen.BigGas)
+			case 1:
+				call = gen.MultiCall(from, s.A, []gen.Item{{ID: s.F1, Nonce: 0, Qty: big.NewInt(0)}, {ID: x, Nonce: 0, Qty: big.NewInt(2)}}, gen.BigGas)
+			default:
+				call = gen.TransferCall(from, s.A, x, big.NewInt(1), gen.BigGas)
+			}
+			if v >= 6 {
+				call.RetAfterErr = true
+			}
+			onLeg(s.U, s.M, s.U.N.Exec(call))
+			for _, dl := range drain(s.U.N) {
+				onLeg(s.U, s.M, dl)
+			}
+			R.Cover("C11/directed-fungible-onto-nft-alias-cases")
+			R.Eval(s.U.N.Seq())
+		}
+	}
 	if mine(c, 3) {
 		aliasCases(c, []string{"C11"})
 		// aliasing through the metadata operations (needs the role for the truncated id, which the
